@@ -269,6 +269,30 @@ def check_pin(ctx, F, E):
         else:
             ctx.violation("C09.pin", site, "%s (%s)" % (site_str(F, w), F.floc(w)), "%s writes transitionTargets" % site_str(F, w), {})
     check_pin_bounds(ctx, F, "C09.pin")
+    check_pin_index(ctx, F, "C09.pin")
+
+
+def check_pin_index(ctx, F, rule):
+    """the index a request is pinned with is its position in the step's record: the round loops of processTransitions / initialEnter hand
+    applyRequest `currentTransitions.count() + i` (the record so far plus the position in the round), not the position in the round alone -
+    otherwise the states activated by a follow-up round point at an entry of an earlier round"""
+    for fid, b in insts(F, "R_", {"processTransitions", "initialEnter"}):
+        site = "R_::" + b["name"]
+        bad = None
+        n = 0
+        for p in sym_paths(F, fid, 1):
+            for ev in p:
+                if ev[0] == "call" and ev[2] is not None and F.fn(ev[2])["name"] == "applyRequest":
+                    n += 1
+                    idx = (ev[4] or [None, None, None])[2] if len(ev[4] or []) > 2 else None
+                    if idx is None or "currentTransitions" not in idx:
+                        bad = idx
+        if n:
+            ctx.instance(rule, site + "/index", {"function": site, "loc": F.floc(fid)})
+            if bad is not None:
+                ctx.violation(rule, site + "/index", "%s (%s)" % (site, F.floc(fid)),
+                              "applyRequest is handed the index `%s` (position within the round); the record grows by `currentTransitions += pendingTransitions` "
+                              "per approved round, so states activated by a follow-up round are pinned to an earlier round's entry" % bad, {})
 
 
 def check_pin_bounds(ctx, F, rule):
